@@ -716,7 +716,7 @@ B('SI-unset-labels-behind', ['C20'], 'frame.py', 'Frame.unset_index',
 B('SI-unset-blocks-behind', ['C20'], 'frame.py', 'Frame.unset_index',
   '            yield self.index.values # 2D immutable array\n            for b in self._blocks._blocks:\n                yield b', '            for b in self._blocks._blocks:\n                yield b\n            yield self.index.values', 'E.pair[set-index]', 'unset_index')
 B('SI-name-dropped', ['C20'], 'frame.py', 'Frame.set_index',
-  '                own_index=True,\n                name=self._name\n                )\n\n    def set_index_hierarchy', '                own_index=True,\n                )\n\n    def set_index_hierarchy', 'E.pair[set-index]', 'Frame.set_index')
+  '                own_index=True,\n                name=self._name\n                )', '                own_index=True,\n                )', 'E.pair[set-index]', 'Frame.set_index')
 N('SI-hoist-iloc', ['C20'], 'frame.py', 'Frame.set_index',
   '            index_values = self._blocks._extract_array(column_key=column_iloc)\n            name = column', '            key_pos = column_iloc\n            index_values = self._blocks._extract_array(column_key=key_pos)\n            name = column')
 
